@@ -27,7 +27,8 @@ def values_for(setting, rng):
     if setting == "port":
         return [str(x) for x in rng.sample(range(20000, 60000), 3)]
     if setting == "thread_count":
-        return [str(x) for x in rng.sample(range(1, 10), 3)]
+        # small pools and pools larger than any plausible multiple of the CPU count
+        return [str(x) for x in rng.sample([1, 2, 3, 5, 8, 9, 17, 64, 199, 257, 300, 513], 3)]
     if setting in ("cors_allow_all", "cors_allow_credentials"):
         return ["false", "true", "false"] if rng.chance(1, 2) else ["true", "false", "true"]
     if setting in LISTY and rng.chance(1, 3):
@@ -261,6 +262,8 @@ def engine_b(c, rng):
                 plans.append((s, mask))
         if c.quick:
             plans = plans[:33]
+        # nothing configured at all: the documented defaults are in force (200 workers, 10000-byte buffer, allow-all CORS)
+        plans += [(s0, 0) for s0 in ("thread_count", "request_allocation_size", "cors_allow_all")]
         for s, mask in plans:
             ev, fv, cv = values_for(s, rng)
             port = server.free_port()
